@@ -270,6 +270,42 @@ fn definite(s: SolverStatus) -> Option<u8> {
     }
 }
 
+/// Is this definite verdict backed, independently, by what was returned?  (generous
+/// factors: the point is to tell a sound answer from numerical garbage, not to re-judge
+/// the solver's tolerances - that is C01/C02's business)
+pub fn verdict_is_backed(prob: &Prob, eff: &Effective, st: &DefaultSettings<f64>, s: &Snap) -> bool {
+    let finite = s.x.iter().chain(&s.s).chain(&s.z).all(|v| v.is_finite());
+    if !finite {
+        return false;
+    }
+    let zk: Vec<f64> = (0..prob.m).map(|i| if eff.keep[i] { s.z[i] } else { 0.0 }).collect();
+    match s.status {
+        SolverStatus::Solved => {
+            let r = recompute(prob, eff, &s.x, &s.s, &s.z);
+            let gap = (r.obj.v - r.obj_dual.v).abs();
+            let den = 1.0f64.max(r.obj.v.abs().min(r.obj_dual.v.abs()));
+            r.r_prim <= 100.0 * st.tol_feas
+                && r.r_dual <= 100.0 * st.tol_feas
+                && (gap <= 100.0 * st.tol_gap_abs || gap / den <= 100.0 * st.tol_gap_rel)
+        }
+        SolverStatus::PrimalInfeasible => {
+            let bk: Vec<f64> = (0..prob.m).map(|i| if eff.keep[i] { eff.b_capped[i] } else { 0.0 }).collect();
+            let bz = dot_t(&bk, &zk).v;
+            let (atz, _) = mul_t(&prob.a, &zk);
+            bz < 0.0 && norm2(&atz) <= 1e-4 * bz.abs() * 1.0f64.max(norm2(&zk))
+        }
+        SolverStatus::DualInfeasible => {
+            let qx = dot_t(&prob.q, &s.x).v;
+            let (px, _) = symmul(&prob.p_triu, &s.x);
+            let (ax, _) = mul(&prob.a, &s.x);
+            let axs: Vec<f64> = (0..prob.m).map(|i| if eff.keep[i] { ax[i] + s.s[i] } else { 0.0 }).collect();
+            let lim = 1e-4 * qx.abs() * 1.0f64.max(norm2(&s.x));
+            qx < 0.0 && norm2(&px) <= lim && norm2(&axs) <= lim
+        }
+        _ => false,
+    }
+}
+
 /// weak duality across two runs on the same data: returns the allowed |p1-p2|
 pub fn objective_slack(prob: &Prob, eff: &Effective, s1: &Snap, s2: &Snap) -> f64 {
     let res = |s: &Snap| -> (Vec<f64>, Vec<f64>) {
@@ -787,7 +823,33 @@ pub fn run(tier: Tier) -> RunOutcome {
                                 // both primal and dual infeasible admits either certificate)
                                 probe("c08_ill_posed_disagreement_not_judged");
                             }
+                            (Some(a), Some(b))
+                                if a != b
+                                    && !(verdict_is_backed(&mprob_user, &eff, &st_now, &snap)
+                                        && verdict_is_backed(&mprob_user, &eff, &st_now, &rsnap)) =>
+                            {
+                                // one of the two verdicts is not backed by what that solver returned
+                                // (an "infeasibility certificate" with a large A'z, a "solution" with
+                                // large residuals): the disagreement is that solver's numerical failure
+                                // on this input - C01/C02's subject, a pure function of its scaled data -
+                                // and says nothing about the update mechanism, which the data, KKT and
+                                // report oracles above check directly
+                                probe("c08_unbacked_verdict_disagreement_not_judged");
+                            }
                             (Some(a), Some(b)) if a != b => {
+                                if std::env::var("SIM_DEBUG").is_ok() {
+                                    for (nm, sn) in [("updated", &snap), (name, &rsnap)] {
+                                        let (atz, _) = mul_t(&mprob_user.a, &sn.z);
+                                        let (ax, _) = mul(&mprob_user.a, &sn.x);
+                                        let axs: Vec<f64> = (0..mprob_user.m).map(|i| ax[i] + sn.s[i]).collect();
+                                        eprintln!(
+                                            "verdict dbg {}: {:?} it={} b'z={:e} |A'z|={:e} |z|={:e} q'x={:e} |Ax+s|={:e} |x|={:e}",
+                                            nm, sn.status, sn.iterations,
+                                            dot_t(&mprob_user.b, &sn.z).v, norm_inf(&atz), norm_inf(&sn.z),
+                                            dot_t(&mprob_user.q, &sn.x).v, norm_inf(&axs), norm_inf(&sn.x)
+                                        );
+                                    }
+                                }
                                 out.violations.push(Violation::new(
                                     "C08.verdict_differs",
                                     format!(
